@@ -22,7 +22,7 @@ func init() {
 			"field of both cost structs has an unsigned integer kind (the reflective check skips none); the broadcast calls SetNewGasConfig on every key of the container with the stored schedule. R4: every sender-side success path of a priced entry point " +
 			"passes a charge of the own cost (a GasRemaining value containing -cost, or the saturating helper applied to cost); plain GasProvided is stored only where the sender account is absent or a charge follows. R5: the lengths multiplied by StorePerByte cover every argument stored into the entry. R6: forwarded gas is moved out of the remainder after all charges (shared with C06-R3). Does NOT decide: the consumed amount as a number.",
 		Trusted: []string{"T-REG (spec/registry.json): cost field and per-byte fields per protocol name", "mapstructure.Decode fills the struct from the map", "check.ForZeroUintFields semantics (its field-kind filter is matched against the struct definitions)"},
-		Rules:   []func(*Ctx){c16r1, c16r2, c16r3, c16r4, c16r5, c16r6},
+		Rules:   []func(*Ctx){c16r1, c16r2, c16r3, c16r4, c16r5, c16r6, c16r7},
 	})
 }
 
